@@ -165,11 +165,15 @@ func runRules(sels []string, cfg string, overlay map[string][]byte) (list []ob.O
 			// fatal when validating the checker on the unchanged tree, a shape note otherwise
 			defer func() {
 				if rec := recover(); rec != nil {
-					if ae, ok := rec.(model.AnalysisError); ok {
-						panic(ae)
-					}
 					if model.Strict && overlay == nil {
 						panic(rec)
+					}
+					if ae, ok := rec.(model.AnalysisError); ok {
+						// an anchor the rule is written around is not there (a type or a
+						// function removed or renamed beyond recognition): nothing to check for
+						// this rule on this tree — a shape note, like a floor that is not met
+						m.Blind("rule %s: %s; what it had established up to that point is kept", j.name, ae.Msg)
+						return
 					}
 					m.Blind("rule %s could not analyse part of this tree (%v); what it had established up to that point is kept", j.name, rec)
 				}
@@ -360,14 +364,27 @@ func runProp(id, tier string) int {
 	}
 	fmt.Printf("%s tier=%s: %d obligations over %v, %d discharged, %d known findings, %d violations; controls: %d run, %d fired, %d negative silent, %d skipped; %.1fs\n",
 		id, tier, obligations, cfgNames, nOK, nKnown, nViol, ctl.Run, ctl.Fired, ctl.Silent, ctl.Skipped, time.Since(start).Seconds())
-	if ctl.Blind > 0 {
-		model.Fatal("%d control(s) applied but did not fire: %v", ctl.Blind, ctl.BlindNames)
-	}
-	if ctl.FalseAlarm > 0 {
-		model.Fatal("%d negative control(s) raised an alarm: %v", ctl.FalseAlarm, ctl.FalseNames)
-	}
+	// a violation is the verdict, whatever the controls say
 	if nViol > 0 {
 		return 1
+	}
+	// The controls validate the checker on the tree it was confirmed on. Under -strict (how the
+	// checker is validated before a commit) a positive control that does not fire or a negative one
+	// that alarms is fatal. Run without -strict — on whatever tree /repo holds now — the same
+	// outcome says that this tree has another shape than the one the control was written for; it
+	// is recorded in the evidence (controls.blind_names / false_names) and shown, and the verdict
+	// of the rules stands.
+	if ctl.Blind > 0 {
+		if model.Strict {
+			model.Fatal("%d control(s) applied but did not fire: %v", ctl.Blind, ctl.BlindNames)
+		}
+		fmt.Printf("NOTE (controls): %d control(s) applied but did not fire on this tree: %v\n", ctl.Blind, ctl.BlindNames)
+	}
+	if ctl.FalseAlarm > 0 {
+		if model.Strict {
+			model.Fatal("%d negative control(s) raised an alarm: %v", ctl.FalseAlarm, ctl.FalseNames)
+		}
+		fmt.Printf("NOTE (controls): %d negative control(s) raised an alarm on this tree: %v\n", ctl.FalseAlarm, ctl.FalseNames)
 	}
 	return 0
 }
